@@ -243,9 +243,14 @@ impl<'a> PreparedAccessor<'a> {
 
 impl<'a> FieldAccessor for PreparedAccessor<'a> {
     fn get_str_at(&self, field: &str, index: usize) -> Option<&str> {
-        self.columns
-            .get(field)
-            .and_then(|col| col.get_str_at(index))
+        self.columns.get(field).and_then(|col| {
+            // A typed bool column has no string view; render it the way the memtable path does
+            match col.get_bool_at(index) {
+                Some(true) => Some("true"),
+                Some(false) => Some("false"),
+                None => col.get_str_at(index),
+            }
+        })
     }
 
     fn get_i64_at(&self, field: &str, index: usize) -> Option<i64> {
